@@ -257,6 +257,26 @@ for _pid in ("C01", "C05", "C06", "C17"):
     _l, _t, _x, _n = CLAIMED[_pid]
     CLAIMED[_pid] = (_l, _t, _x + _STORY, _n)
 
+# refinements of rounds 8 and 9 of the seeded changes (DESIGN.md 9.10, 9.11), one sentence per property
+_LATE = {
+ "C01": " Recorded traces hold proof lists of 8..128 conforming links followed by proofs that do not belong to the chain; one world's principals differ from others only in the case of a letter of their did:key text.",
+ "C02": " Delegations whose command is not a command (9 texts), sealed by the library and read back, are refused on the wire or authorize nothing.",
+ "C03": " The policy catalogue holds indexes before the start / past the end of a list under every statement form.",
+ "C04": " IsValidNow is compared with the token's window at the current time; IsValidAt is probed at the zero time, year 1, the epoch and the extremes.",
+ "C06": " The varsig header of every key algorithm is written out by hand from the multicodec numbers and compared with the header of every library-sealed token of the issuer sweep.",
+ "C07": " Every constructed token is sealed and unsealed, also one C10 would call ill-formed.",
+ "C10": " Out-of-range integers rotate over 2^53, 2^53+1, 2^62, MaxInt64 and -2^53, -2^62, MinInt64+1, MinInt64 in every integer position; an Args assembled through its exported fields is stored exactly or refused.",
+ "C12": " A parsed selector is reused on subjects of other lengths; explicit slice bounds lie around the end of strings, byte strings and lists; keys hold blanks.",
+ "C14": " The text driver holds indexes around 2^31, 2^32 and 2^53 and quoted keys with bytes that are not UTF-8, spelling checked byte for byte.",
+ "C16": " 24 non-canonical spellings of each identifier (DID URLs, white space, case, versioned and segmented forms) are refused or parse to themselves.",
+ "C17": " Token sizes at which a length prefix grows (CAR sections of 2^14, 2^21; CBOR heads of 2^16) and 13 re-spellings of the base64 text are read through the byte-slice and the stream reader.",
+ "C19": " Keys of the wrong size spell the good key as text (hex in either case, base64) or extend / shorten it by a byte.",
+ "C20": " The operations include every accessor of three tokens and iterators that were obtained once and are ranged over again.",
+}
+for _pid, _s in _LATE.items():
+    _l, _t, _x, _n = CLAIMED[_pid]
+    CLAIMED[_pid] = (_l, _t, _x + _s, _n)
+
 NOT_YET = "check not built yet in this session (work in progress; see DESIGN.md section 3 for the planned model)"
 
 checks, na = [], []
